@@ -247,16 +247,15 @@ class Receiver:
                 for b in data:
                     self.obj.feed_byte(b)
             elif how == 'gen_fail' and len(data) > 1:
-                # the lazy source fails after some bytes of the chunk; the rest is delivered by the next call
+                # the lazy source fails after some bytes of the chunk; the bytes it did not deliver stay on the
+                # wire and come with a later delivery (the caller is told how many were consumed)
                 st = {'fail_at': len(data) // 2 + (len(data) % 3 == 0), 'consumed': 0}
                 try:
                     self.obj.feed(_failing_source(data, st))
                 except SourceFailed:
                     pass
                 self.source_failures = getattr(self, 'source_failures', 0) + 1
-                rest = data[st['consumed']:]
-                if rest:
-                    self.obj.feed(list(rest))
+                return st['consumed']
             else:
                 self.obj.feed(_as(how, data))
         elif m == 'pq':
@@ -666,6 +665,8 @@ class WireEngine(BaseEngine):
                     mutate_received(m)      # the consumer edits what it got; later messages must not care
                     stats['fault:consumer_mutates_message'] += 1
 
+            deferred = [False]      # a delivery failed part-way: what it tokenised may surface only with the next one
+            last_pending = [None]   # what pending() said since the last delivery (None: not asked)
             twin = None
             twin_fed = 0
             twin_got = []
@@ -679,6 +680,8 @@ class WireEngine(BaseEngine):
             for op in plan['ops'] + [['feed', 'list', n], ['drain']]:
                 kind = op[0]
                 stats['steps'] += 1
+                if kind not in ('pending', 'len', 'get'):
+                    last_pending[0] = None       # only a get_message() directly after a pending() is compared with it
                 if kind == 'delay':
                     self._vclock.now += op[1]        # the transport is slow: virtual time passes between deliveries
                     stats['fault:delivery_delay'] += 1
@@ -704,7 +707,14 @@ class WireEngine(BaseEngine):
                         continue
                     data = wire[fed:fed + size]
                     how = op[1]
-                    self._call(f'feed[{how}]' if mode == 'parser' else f'feed@{mode}', rx.feed, how, data)
+                    consumed = self._call(f'feed[{how}]' if mode == 'parser' else f'feed@{mode}', rx.feed, how, data)
+                    if isinstance(consumed, int) and 0 <= consumed < size:
+                        size = consumed
+                        stats['fault:source_failed_mid_chunk'] += 1
+                        deferred[0] = True
+                    else:
+                        deferred[0] = False
+                    last_pending[0] = None
                     fed += size
                     cuts.append(fed)
                     iter_live_during_feed.update(rx.iters)
@@ -712,9 +722,15 @@ class WireEngine(BaseEngine):
                 elif kind == 'get':
                     m = self._call('get', rx.get)
                     log.ev('get', repr(m))
+                    if prop == 'C05' and last_pending[0] is not None:
+                        # pending() and get_message() must agree with each other at all times
+                        if (m is None) != (last_pending[0] == 0):
+                            raise Violation('pending-vs-get', f'pending() said {last_pending[0]} and the next get_message() '
+                                                              f'returned {m!r}')
+                        last_pending[0] = None
                     if m is None:
                         stats['probe:get_on_empty'] += 1
-                        if prop == 'C05' and avail() > 0:
+                        if prop == 'C05' and avail() > 0 and not deferred[0]:
                             raise Violation('get-none-but-pending', f'get returned None with {avail()} message(s) '
                                                                     f'pending in the model (fed {fed})')
                     else:
@@ -722,7 +738,12 @@ class WireEngine(BaseEngine):
                 elif kind in ('pending', 'len'):
                     v = self._call(kind, rx.pending, kind == 'len')
                     log.ev(kind, v)
-                    if v is not None and prop == 'C05' and v != avail():
+                    if v is not None:
+                        last_pending[0] = v
+                    if v is not None and prop == 'C05' and deferred[0] and v > avail():
+                        raise Violation(f'pending-mismatch@{kind}', f'{kind} gave {v}, more than the {avail()} messages the '
+                                                                   f'bytes consumed so far contain')
+                    if v is not None and prop == 'C05' and not deferred[0] and v != avail():
                         raise Violation(f'pending-mismatch@{kind}', f'{kind} gave {v}, model has {avail()} '
                                                                    f'(fed {fed}, retrieved {len(retrieved)})')
                 elif kind == 'iter_open':
@@ -744,7 +765,7 @@ class WireEngine(BaseEngine):
                             log.ev('iter_stop', op[1])
                             del rx.iters[op[1]]
                             iter_live_during_feed.discard(op[1])
-                            if prop == 'C05' and avail() > 0:
+                            if prop == 'C05' and avail() > 0 and not deferred[0]:
                                 raise Violation('iter-stopped-but-pending', f'open iterator stopped with {avail()} '
                                                                             f'pending in the model')
                             break
@@ -768,7 +789,8 @@ class WireEngine(BaseEngine):
                         if k > n + 5:
                             raise Violation('drain-unbounded', 'draining yields more messages than input bytes')
                     log.ev('drain', k)
-                    if exp_n is not None and k != exp_n:
+                    last_pending[0] = None
+                    if exp_n is not None and k != exp_n and not (deferred[0] and k < exp_n):
                         raise Violation('drain-count-mismatch', f'drain yielded {k}, model had {exp_n} pending')
             if twin is not None and twin_ref is not None:
                 self._call('twin.feed', twin.feed, twin_wire[twin_fed:])
